@@ -31,6 +31,58 @@ fn gf_pow2(n: usize) -> u8 {
     r
 }
 
+fn gf_inv(a: u8) -> u8 {
+    // a^254
+    let mut r = 1u8;
+    let mut b = a;
+    let mut e = 254u32;
+    while e > 0 {
+        if e & 1 == 1 {
+            r = gf_mul(r, b);
+        }
+        b = gf_mul(b, b);
+        e >>= 1;
+    }
+    r
+}
+
+/// the word supported on the last k positions of a block (X^0 .. X^{k-1}) whose syndromes
+/// S_j = w(2^{j+1}), j = 0..k-1, are the given ones (Vandermonde system, Gaussian elimination)
+fn word_with_syndromes(syn: &[u8]) -> Vec<u8> {
+    let k = syn.len();
+    let mut m: Vec<Vec<u8>> = (0..k)
+        .map(|j| {
+            let a = gf_pow2(j + 1);
+            let mut row = Vec::with_capacity(k + 1);
+            let mut p = 1u8;
+            for _ in 0..k {
+                row.push(p);
+                p = gf_mul(p, a);
+            }
+            row.push(syn[j]);
+            row
+        })
+        .collect();
+    for c in 0..k {
+        let piv = (c..k).find(|r| m[*r][c] != 0).unwrap();
+        m.swap(c, piv);
+        let inv = gf_inv(m[c][c]);
+        for x in c..=k {
+            m[c][x] = gf_mul(m[c][x], inv);
+        }
+        for r in 0..k {
+            if r != c && m[r][c] != 0 {
+                let f = m[r][c];
+                for x in c..=k {
+                    let v = gf_mul(f, m[c][x]);
+                    m[r][x] ^= v;
+                }
+            }
+        }
+    }
+    (0..k).map(|d| m[d][k]).collect()
+}
+
 pub fn rsdec(si: usize, word: &[u8]) -> String {
     let sizes = all_sizes();
     let s = sizes[si];
@@ -278,6 +330,50 @@ pub fn gen(out: &mut dyn Write, which: &str, seed: u64, thorough: bool) {
                 u[rng.below(g.total)] = 1 + rng.below(255) as u8;
                 emit_any(out, &mut hist, si, &u, "unit");
             }
+        }
+        // words with crafted syndrome sequences: generated by a short linear recurrence for the first
+        // m syndromes and arbitrary afterwards (looks like v errors, then deviates), leading zeros,
+        // singular Hankel minors - the corner cases of the locator search and the malfunction test
+        for _ in 0..(if thorough { 60000 } else { 6000 }) {
+            let si = *rng.pick(&[0usize, 1, 2, 3, 4, 5, 6, 7, 8, 9, 12, 24, 38]);
+            let g = geom(si);
+            let k = g.k;
+            let t = k / 2;
+            let v = 1 + rng.below(t);
+            let conn: Vec<u8> = (0..v).map(|_| rng.byte()).collect();
+            let m = (v + 1 + rng.below(k)).min(k);
+            let zeros = if rng.chance(1, 4) { rng.below(t + 1) } else { 0 };
+            let mut syn: Vec<u8> = vec![];
+            for j in 0..k {
+                let val = if j < zeros {
+                    0
+                } else if j < zeros + v {
+                    if rng.chance(1, 6) { 0 } else { rng.byte() }
+                } else if j < m {
+                    let mut a = 0u8;
+                    for (q, c) in conn.iter().enumerate() {
+                        a ^= gf_mul(*c, syn[j - 1 - q]);
+                    }
+                    a
+                } else if rng.chance(1, 3) {
+                    // keep following the recurrence after one deviation
+                    let mut a = 0u8;
+                    for (q, c) in conn.iter().enumerate() {
+                        a ^= gf_mul(*c, syn[j - 1 - q]);
+                    }
+                    a
+                } else {
+                    rng.byte()
+                };
+                syn.push(val);
+            }
+            let p = word_with_syndromes(&syn);
+            let idx0 = block_indices(&g, 0);
+            let mut wz = if rng.chance(1, 2) { vec![0u8; g.total] } else { codeword(&mut rng, si, false) };
+            for (d, c) in p.iter().enumerate() {
+                wz[idx0[idx0.len() - 1 - d]] ^= *c;
+            }
+            emit_any(out, &mut hist, si, &wz, "crafted_syndromes");
         }
         // small sizes: many random words (the chance of a miscorrection is highest there)
         for _ in 0..(if thorough { 300000 } else { 20000 }) {
